@@ -162,6 +162,19 @@ CHECKS = {
         note='Reference decoders written from the firmware structs; see assumptions in the evidence file.',
         technique='reference-decoder oracle on packets captured at the link boundary',
         engine='codec-oracles', design='DESIGN.md §3 C08'),
+    'C12': dict(
+        level='fault_enumeration',
+        text=('The real Bootloader._internal_flash and Cloader.upload_buffer/write_flash run against a simulated bootloader '
+              'target (RAM buffer + flash array) whose geometry is reported through the real info parse. Enumerated: page size x '
+              'buffer pages x flash pages x every start page (and page override) x image lengths around every page / buffer / '
+              'capacity multiple, both targets, realistic 1024-byte-page geometries; reply scripts = all combinations of '
+              '{answer, reply lost, request lost, negative} over the first attempts of the first three flash-write commands with '
+              'and without a permanently lost tail. Monitors: flash == image over the range and untouched elsewhere, frame <= 32 '
+              'bytes, buffer tiles cover every byte exactly once, refusal before any packet when it does not fit, <= 6 '
+              'transmissions per command, nothing sent after an abort.'),
+        note='Small geometries enumerated (sampled subset in quick), realistic ones at boundary lengths.',
+        technique='device-model monitor over packet log and flash image; reply-fault enumeration',
+        engine='codec-oracles', design='DESIGN.md §3 C12'),
 }
 
 PENDING_REASON = ('check not built yet in this work session (design in DESIGN.md §3); nothing is claimed for it '
